@@ -369,12 +369,14 @@ def install(I):
     @reg(set)
     def _set(I, args, kw, star, dstar, node):
         if not args:
-            return SymSet(z3.Const("set_empty", V))
+            return SymSet(z3.EmptySet(V))
         (v,) = args
+        if isinstance(v, SymSet):
+            return SymSet(v.t)
         ci = I.concrete_iter(v)
         if ci is not None:
             return I.make_set(ci)
-        return SymSet(fn("set_of_seq", S, V)(I.as_seq(v)))
+        return SymSet(fn("set_of_seq", S, smt.SetV)(I.as_seq(v)))
     H[frozenset] = _set
 
     @reg(dict)
@@ -486,8 +488,8 @@ def install(I):
             raise Unsupported("reduce with non-operator function over symbolic sequence")
         s = I.as_seq(v)
         if opname == "or" and len(args) > 2 and isinstance(args[2], SymSet):
-            # set union fold (Collector.combine)
-            return SymSet(fn("set_union_fold", V, S, V)(I.lift(args[2]), s))
+            # set union fold (Collector.combine): decomposed along the sequence structure
+            return SymSet(z3.SetUnion(args[2].t, I.union_of_seq(s)))
         if len(args) > 2:
             return fold_term(I, opname, I.lift(args[2]), s)
         if not I.decide(z3.Length(s) > 0):
@@ -546,17 +548,20 @@ def install(I):
             if isinstance(v, SymSeq):
                 info = I.map_info.get(v.t.get_id())
                 # all(a is b for a, b in zip(s1, s2)) over equal-length sequences  <=>  s1 == s2
-                if info is not None and name == "all" and len(info["bvs"]) == 2 and z3.is_true(info["ok"]) \
+                if info is not None and name == "all" and len(info["bvs"]) >= 2 and z3.is_true(info["ok"]) \
                         and z3.is_true(info["keep"]):
-                    b0, b1 = info["bvs"]
                     body = info["val"]
-                    tgt = I.ctx.bbool(b0 == b1)
-                    tgt2 = I.ctx.bbool(b1 == b0)
-                    if z3.eq(body, tgt) or z3.eq(body, tgt2):
-                        s0, s1 = info["seqs"]
-                        r, _ = smt.check(I.ctx, I.pcs + [z3.Length(s0) != z3.Length(s1)])
-                        if r == "unsat":
-                            return SymBool(s0 == s1)
+                    nb = len(info["bvs"])
+                    for i0 in range(nb):
+                        for i1 in range(nb):
+                            if i0 == i1:
+                                continue
+                            b0, b1 = info["bvs"][i0], info["bvs"][i1]
+                            if z3.eq(body, I.ctx.bbool(b0 == b1)):
+                                s0, s1 = info["seqs"][i0], info["seqs"][i1]
+                                r, _ = smt.check(I.ctx, I.pcs + [z3.Length(s0) != z3.Length(s1)])
+                                if r == "unsat":
+                                    return SymBool(s0 == s1)
                 t = fn(f"{name}_truthy", S, Bool)(v.t)
                 return SymBool(t)
             raise Unsupported(f"{name} over {type(v).__name__}")
@@ -746,7 +751,7 @@ def value_method(I, obj, name, args, kw, node):
         if name in ("union", "__or__"):
             t = obj.t
             for a in args:
-                t = fn("set_or", V, V, V)(t, I.lift(a))
+                t = z3.SetUnion(t, I.as_set(a))
             return SymSet(t)
         if name == "add":
             raise Unsupported("mutation of symbolic set (use hook)")
